@@ -6,7 +6,7 @@ From Coq Require Import List NArith ZArith Bool Lia ZifyN ZifyNat ZifyBool.
 From BLB Require Import Lib.LTS Raft.Core Raft.Wire Raft.NodeProofs Raft.NodeKeep Raft.NodeElect Raft.NodeConf
   Raft.Election Raft.ElectionFixed Raft.LogMatchLists Raft.LogMatchNode Raft.LogMatch Raft.Completeness Raft.CompletenessAck
   Raft.CompletenessVote Raft.MembershipQuorum Raft.NodeKeepV Raft.MemberNode Raft.MemberVotes Raft.MemberConfStep
-  Raft.MemberPeers Raft.MemberConfTrack Raft.MemberLeaderOut
+  Raft.MemberPeers Raft.MemberConfTrack Raft.MemberLeaderOut Raft.MemberLeaderLog
   Raft.LogMatchNodeM Raft.LogMatchM Raft.CompletenessAckM Raft.MemberAbstract Raft.CompletenessVoteM.
 Import ListNotations.
 Open Scope N_scope.
@@ -18,12 +18,11 @@ Section Safety.
   Variables (bm : list nid) (be : N).
   Let bootE := boot_entry bm be.
 
-  (* a leader whose commit index holds an entry of its own term committed it itself, under the latest configuration of the
-     log it held then *)
-  Definition lci (σ : sys) (G : list lrec) (A : list ack) : Prop :=
-    forall i s, get_node i (sy_nodes σ) = Some s -> n_role s = Leader -> 1 <= n_commit s ->
-      (exists e, nth_error (p_log (n_p s)) (N.to_nat (n_commit s) - 1) = Some e /\ e_term e = p_term (n_p s)) ->
-      exists L C, pfx L (p_log (n_p s)) /\ cmr G A (p_term (n_p s)) L (N.to_nat (n_commit s)) C.
+  (* committed under the configuration of the committing leader *)
+  Definition committedM (G : list lrec) (A : list ack) (T : N) (P : list entry) : Prop :=
+    exists L C, cmr G A T L (length P) C /\ pfx P L.
+  Definition cprefixM (G : list lrec) (A : list ack) (t : N) (L : list entry) (c : nat) : Prop :=
+    c = 0%nat \/ exists T P, committedM G A T P /\ T <= t /\ pfx (firstn c L) P.
 
   Record MS (a : asys) (G : list lrec) (A : list ack) (CL : list cand) (GR GL : list grant) : Prop := {
     ms_em : EM a;
@@ -33,7 +32,11 @@ Section Safety.
     ms_cp : forall i s, get_node i (sy_nodes (fst a)) = Some s -> n_role s = Leader ->
               forall p, In p (l_peers s) -> pjust_ackM A (pr_id p) (p_term (n_p s)) (pr_match p);
     ms_hr : forall t c, In (t, c) (sy_hist (fst a)) -> exists l, In (t, c, l) G;
-    ms_lci : lci (fst a) G A;
+    ms_cn : forall i s, get_node i (sy_nodes (fst a)) = Some s ->
+              (N.to_nat (n_commit s) <= length (p_log (n_p s)))%nat /\
+              cprefixM G A (p_term (n_p s)) (p_log (n_p s)) (N.to_nat (n_commit s));
+    ms_cm : forall m pi pt cm oe, In m (sy_soup (fst a)) -> m_body m = AppEnts pi pt cm oe ->
+              exists i l, In (m_term m, i, l) G /\ (N.to_nat cm <= length l)%nat /\ cprefixM G A (m_term m) l (N.to_nat cm);
     ms_B : forall T i l j1 e1 j2 e2, In (T, i, l) G -> cat l j1 e1 -> cat l j2 e2 -> (j1 < j2)%nat ->
       exists T' L' mi', cmr G A T' L' mi' (cmem e1) /\ latest L' j1 e1 /\ (j1 < mi')%nat /\ agree L' l (S j1) /\ T' <= e_term e2;
     ms_F : forall T i l j2 e2, In (T, i, l) G -> cat l j2 e2 -> (1 <= j2)%nat ->
@@ -43,6 +46,23 @@ Section Safety.
       adj (cmem e1) (cmem e2) \/ adj (cmem e2) (cmem e1);
     ms_nd : forall T i l j e, In (T, i, l) G -> cat l j e -> NoDup (cmem e)
   }.
+
+  Lemma cmr_mono G G' A A' T L mi C : incl G G' -> incl A A' -> cmr G A T L mi C -> cmr G' A' T L mi C.
+  Proof.
+    intros HG HA [[iT [R N0]] [H1 [H2 [H3 [Q [Q1 [Q2 [Q3 Q4]]]]]]]].
+    split; [exists iT; split; [apply HG; exact R | exact N0]|]. split; [exact H1|]. split; [exact H2|]. split; [exact H3|].
+    exists Q. split; [exact Q1|]. split; [exact Q2|]. split; [exact Q3|].
+    intros v Hv. destruct (Q4 v Hv) as [P [X Y]]. exists P. split; [apply HA; exact X | exact Y].
+  Qed.
+
+  Lemma committedM_mono G G' A A' T P : incl G G' -> incl A A' -> committedM G A T P -> committedM G' A' T P.
+  Proof. intros HG HA [L [C [X Y]]]. exists L, C. split; [eapply cmr_mono; eauto | exact Y]. Qed.
+
+  Lemma cprefixM_mono G G' A A' t t' L c : incl G G' -> incl A A' -> t <= t' -> cprefixM G A t L c -> cprefixM G' A' t' L c.
+  Proof.
+    intros HG HA Ht [Z | [T [P [C1 [C2 C3]]]]]; [left; exact Z | right]. exists T, P. split; [eapply committedM_mono; eauto|].
+    split; [lia | exact C3].
+  Qed.
 
   Section State.
     Variables (a : asys) (G : list lrec) (A : list ack) (CL : list cand) (GR GL : list grant).
@@ -107,6 +127,14 @@ Section Safety.
       destruct (w_quorum _ _ _ _ _ _ _ _ W _ _ _ R1 N1) as [lc1 [W1 _]].
       destruct (w_quorum _ _ _ _ _ _ _ _ W _ _ _ R2 N2) as [lc2 [W2 _]].
       exact (election_safety_of_minv _ _ _ _ _ _ _ MS_minv U c1 lc1 c2 lc2 (win_winl _ _ _ _ _ _ _ W1) (win_winl _ _ _ _ _ _ _ W2)).
+    Qed.
+
+    Lemma committedM_kept T P U c l : committedM G A T P -> In (U, c, l) G -> T < U -> keeps l P.
+    Proof.
+      intros [L [C [Hcm Pf]]] R HT. pose proof (MS_leader_completeness U c l T L (length P) C Hcm R HT) as K.
+      assert (E : firstn (length P) L = P).
+      { destruct Pf as [x Hx]. rewrite Hx. rewrite firstn_app, firstn_all, Nat.sub_diag. simpl. apply app_nil_r. }
+      rewrite E in K. exact K.
     Qed.
   End State.
 End Safety.
